@@ -352,6 +352,58 @@ def rn3(prog):
                                  % (show(p)[:60], show(inner[0])[:50])) if inner else
                                 ("the element's prime %s is computed and pushed without having been tested against ⊥: an empty "
                                  "prime stays in the node" % show(p)[:60])))
+    # the same obligation for elements built by an iterator chain: `iter.map(|a| SddAnd::new(op(prime(a)), ..)).collect()`
+    # keeps every element, also those whose computed prime is ⊥, unless a later `filter` of the chain tests the prime
+    for f in prog.lib_fns:
+        if not f.npath.startswith("builder::sdd") or "::test" in f.npath or "{closure" in f.npath:
+            continue
+        te = f.terms
+        k = 0
+        for cs in te.calls:
+            if cs.callee.name not in ("map", "flat_map") or len(cs.args) != 2:
+                continue
+            clo = strip(cs.args[1])
+            if not (isinstance(clo, tuple) and clo and clo[0] == "agg" and clo[1] == "closure"):
+                continue
+            kids = [g for g in prog.children(f) if g.npath == clo[2]]
+            if len(kids) != 1 or kids[0].terms.ret is None:
+                continue
+            g = kids[0]
+            built = [strip(t) for t in g.terms.ret_by_block.values()]
+            built = [v for v in built if mir.is_call(v, "new") and "SddAnd" in v[1].key() and len(v[2]) == 2]
+            for v in built:
+                pr = strip(v[2][0])
+                if not (pr[0] == "call" and pr[1].name in ("and", "or", "condition", "ite", "negate", "exists", "compose", "xor", "iff")):
+                    continue
+                k += 1
+                n_p += 1
+                key = "%s:RN3:nonfalse-prime#map%d" % (f.npath, k)
+                # a filter further down the same chain whose predicate asks is_false
+                filt = sub_filter = False
+                for cs2 in te.calls:
+                    if cs2.callee.name in ("filter", "filter_map", "take_while", "skip_while") and len(cs2.args) == 2 and \
+                            any(mir.is_call(x, cs.callee.name) and len(x) > 3 and x[3] and x[3][0] == cs.bb for x in [strip(cs2.args[0])] + list(mir.subterms(cs2.args[0]))):
+                        c2 = strip(cs2.args[1])
+                        ks = [h for h in prog.children(f) if isinstance(c2, tuple) and c2 and c2[0] == "agg" and c2[1] == "closure" and h.npath == c2[2]]
+                        if ks and any(c.callee.name == "is_false" for c in ks[0].terms.calls):
+                            tested_sub = [c for c in ks[0].terms.calls if c.callee.name == "is_false" and
+                                          any(mir.is_call(x, "sub") for x in mir.subterms(("t",) + tuple(c.args)))]
+                            tested_prime = [c for c in ks[0].terms.calls if c.callee.name == "is_false" and
+                                            any(mir.is_call(x, "prime") for x in mir.subterms(("t",) + tuple(c.args)))]
+                            if tested_prime:
+                                filt = True
+                            if tested_sub:
+                                sub_filter = True
+                out.append(inst("RN", "%s:RN3:exhaustive-primes#map%d" % (f.npath, k), VIOLATION if sub_filter else OK, f, cs.line,
+                                "elements are filtered out of the chain on a test of their sub: the primes of the node built here no "
+                                "longer cover everything" if sub_filter else "no element is left out on a test of its sub"))
+                if filt:
+                    out.append(inst("RN", key, OK, f, cs.line, "elements with a false prime are filtered out of the chain before it is collected"))
+                else:
+                    out.append(inst("RN", key, VIOLATION, f, cs.line,
+                                    "every item of the chain becomes an element (%s, ..) and is collected: an element whose computed "
+                                    "prime became ⊥ is kept, and the node that is interned has a false prime (two pointers for one "
+                                    "function)" % show(pr)[:50]))
     if n_p < 3:
         out.append(inst("RN", "RN3:nonfalse-prime", UNDECIDED, None, None, "only %d computed primes found (expected >= 3)" % n_p))
     return out
